@@ -6,7 +6,8 @@ From Coq Require Import NArith ZArith Arith List Bool Lia.
 From Coq Require Import ZifyBool ZifyN ZifyNat.
 From FF Require Import Lib.Word Gen.Consts_device_acpi_aml Gen.Consts_aml_tree Aml.Stream Aml.Lex Aml.LexProofs
   Aml.Tree Aml.TreeSpec Aml.TreeProofs Aml.Parser Aml.Grammar Aml.LexRoundtrip
-  Aml.ParserTotalBase Aml.ParserFragBase Aml.ParserFragFirst Aml.ParserFragF0 Aml.ParserFragF0Conn Aml.ParserFragWalk Aml.ParserFragRose.
+  Aml.ParserTotalBase Aml.ParserFragBase Aml.ParserFragFirst Aml.ParserFragF0 Aml.ParserFragF0Conn Aml.ParserFragWalk Aml.ParserFragRose
+  Aml.ParserFragDev Aml.ParserFragArgs.
 Import ListNotations.
 Local Open Scope N_scope.
 
@@ -14,28 +15,34 @@ Ltac Zify.zify_post_hook ::= Z.div_mod_to_equations.
 
 Inductive item : Type :=
 | IName (d : decl)
-| IDev (k seg : N) (body : list item)
-| IMeth (k seg fl : N) (body : list item).
+| IBlk (bk : bkind) (k seg : N) (fa : list N) (body : list item).
+
+(** Device and Method blocks (the fragments F1 / F2) *)
+Definition IDev (k seg : N) (body : list item) : item := IBlk BDev k seg [] body.
+Definition IMeth (k seg fl : N) (body : list item) : item := IBlk BMeth k seg [fl] body.
+
+(** the fixed data arguments of a block with their widths *)
+Definition bfx (bk : bkind) (fa : list N) : fxs := combine (bk_ws bk) fa.
+Definition blo (bk : bkind) : N := lenN (enc_op (bk_op bk)).
 
 Fixpoint enc_item (it : item) : list N :=
   match it with
   | IName d => enc_decl d
-  | IDev k seg body =>
-      enc_op OP_DEVICE ++ enc_pkglen k (k + lenN (seg_bytes seg ++ flat_map enc_item body)) ++ seg_bytes seg ++ flat_map enc_item body
-  | IMeth k seg fl body =>
-      enc_op OP_METHOD ++ enc_pkglen k (k + lenN (seg_bytes seg ++ [fl] ++ flat_map enc_item body)) ++ seg_bytes seg ++ [fl] ++ flat_map enc_item body
+  | IBlk bk k seg fa body =>
+      enc_op (bk_op bk) ++ enc_pkglen k (k + lenN (seg_bytes seg ++ enc_fx (bfx bk fa) ++ flat_map enc_item body)) ++
+      seg_bytes seg ++ enc_fx (bfx bk fa) ++ flat_map enc_item body
   end.
 Definition enc_items (l : list item) : list N := flat_map enc_item l.
 
 (** number of objects / fuel units of the first pass *)
 Fixpoint isz (it : item) : nat :=
-  match it with IName _ => 3%nat | IDev _ _ body => (3 + fold_right (fun x n => (isz x + n)%nat) O body)%nat
-              | IMeth _ _ _ body => (4 + fold_right (fun x n => (isz x + n)%nat) O body)%nat end.
+  match it with IName _ => 3%nat
+              | IBlk bk _ _ fa body => (3 + length (bfx bk fa) + fold_right (fun x n => (isz x + n)%nat) O body)%nat end.
 Definition iszs (l : list item) : nat := fold_right (fun x n => (isz x + n)%nat) O l.
 
 Fixpoint icnt (it : item) : nat :=
-  match it with IName _ => 2%nat | IDev _ _ body => (2 + fold_right (fun x n => (icnt x + n)%nat) O body)%nat
-              | IMeth _ _ _ body => (2 + fold_right (fun x n => (icnt x + n)%nat) O body)%nat end.
+  match it with IName _ => 2%nat
+              | IBlk bk _ _ fa body => (2 + length (bfx bk fa) + fold_right (fun x n => (icnt x + n)%nat) O body)%nat end.
 Definition icnts (l : list item) : nat := fold_right (fun x n => (icnt x + n)%nat) O l.
 
 Definition pkglen_okb (k v : N) : bool :=
@@ -55,126 +62,137 @@ Qed.
 Fixpoint item_okb (it : item) : bool :=
   match it with
   | IName d => decl_okb d && (d_seg d <? 0x100000000)
-  | IDev k seg body =>
-      lead_okb (seg_lead seg) && (seg <? 0x100000000) && pkglen_okb k (k + lenN (seg_bytes seg ++ flat_map enc_item body)) &&
-      forallb item_okb body
-  | IMeth k seg fl body =>
-      lead_okb (seg_lead seg) && (seg <? 0x100000000) && (fl <? 256) &&
-      pkglen_okb k (k + lenN (seg_bytes seg ++ [fl] ++ flat_map enc_item body)) && forallb item_okb body
+  | IBlk bk k seg fa body =>
+      lead_okb (seg_lead seg) && (seg <? 0x100000000) && Nat.eqb (length fa) (length (bk_ws bk)) && fx_okb (bfx bk fa) &&
+      pkglen_okb k (k + lenN (seg_bytes seg ++ enc_fx (bfx bk fa) ++ flat_map enc_item body)) && forallb item_okb body
   end.
 
 (** ---- the trees ---- *)
 Section Lay.
 Variable h tbl : N.
 
-Definition dev_pay (off : N) (nm : Name) : pay := mkPay aml_pOpDevice 106 h nm off 0 None.
+Definition blk_pay (bk : bkind) (off : N) (nm : Name) : pay := mkPay (bk_op bk) (bk_info bk) h nm off 0 None.
+Definition dev_pay (off : N) (nm : Name) : pay := blk_pay BDev off nm.
+Definition mth_pay (off : N) (nm : Name) : pay := blk_pay BMeth off nm.
 Definition sb_pay (off : N) : pay := mkPay aml_pOpIntScopeBlock 113 h name_zero off 0 None.
 Definition pth_pay (off : N) : pay := mkPay aml_pOpIntNamePath 118 h name_zero off 0 (Some (VBytes tbl (mkSlice (Some off) 4))).
 Definition nam_pay (off : N) (nm : Name) : pay := mkPay aml_pOpName 3 h nm off 0 None.
 Definition cst_pay (off : N) (d : decl) : pay := mkPay (d_op d) (const_info (d_op d)) h name_zero off 0 (const_val (d_op d) (d_v d)).
-Definition mth_pay (off : N) (nm : Name) : pay := mkPay aml_pOpMethod 13 h nm off 0 None.
 Definition byt_pay (off v : N) : pay := cst_pay off (mkDecl 0 OP_BYTE v).
+
+(** childless nodes in consecutive slots *)
+Fixpoint leaf_row (b : N) (ps : list pay) : list rose :=
+  match ps with [] => [] | p :: r => RN b p [] :: leaf_row (b + 1) r end.
+
+(** name path and fixed data arguments of a block *)
+Definition hd_pays (bk : bkind) (off k : N) (fa : list N) : list pay :=
+  pth_pay (off + blo bk + k) :: fx_pays h (off + blo bk + k + 4) (bfx bk fa).
+Definition sb_off (bk : bkind) (off k : N) (fa : list N) : N := off + blo bk + k + 4 + lenN (enc_fx (bfx bk fa)).
+Definition nfx (bk : bkind) (fa : list N) : N := N.of_nat (length (bfx bk fa)).
 
 (** after the first pass: the constant is the next sibling of the Name object; names are not set *)
 Fixpoint lay1_item (b off : N) (it : item) : list rose :=
   match it with
   | IName d => [RN b (nam_pay off name_zero) [RN (b + 1) (pth_pay (off + 1)) []]; RN (b + 2) (cst_pay (off + 5) d) []]
-  | IDev k seg body =>
-      [RN b (dev_pay off name_zero)
-          [RN (b + 1) (pth_pay (off + 2 + k)) [];
-           RN (b + 2) (sb_pay (off + 2 + k + 4))
+  | IBlk bk k seg fa body =>
+      [RN b (blk_pay bk off name_zero)
+          (leaf_row (b + 1) (hd_pays bk off k fa) ++
+           [RN (b + 2 + nfx bk fa) (sb_pay (sb_off bk off k fa))
               ((fix go (b off : N) (l : list item) {struct l} : list rose :=
                   match l with [] => [] | x :: t => lay1_item b off x ++ go (b + N.of_nat (isz x)) (off + lenN (enc_item x)) t end)
-                 (b + 3) (off + 2 + k + 4) body)]]
-  | IMeth k seg fl body =>
-      [RN b (mth_pay off name_zero)
-          [RN (b + 1) (pth_pay (off + 1 + k)) [];
-           RN (b + 2) (byt_pay (off + 1 + k + 4) fl) [];
-           RN (b + 3) (sb_pay (off + 1 + k + 5))
-              ((fix go (b off : N) (l : list item) {struct l} : list rose :=
-                  match l with [] => [] | x :: t => lay1_item b off x ++ go (b + N.of_nat (isz x)) (off + lenN (enc_item x)) t end)
-                 (b + 4) (off + 1 + k + 5) body)]]
+                 (b + 3 + nfx bk fa) (sb_off bk off k fa) body)])]
   end.
 Fixpoint lay1 (b off : N) (l : list item) : list rose :=
   match l with [] => [] | x :: t => lay1_item b off x ++ lay1 (b + N.of_nat (isz x)) (off + lenN (enc_item x)) t end.
 
-Lemma lay1_dev b off k seg body : lay1_item b off (IDev k seg body) =
-  [RN b (dev_pay off name_zero) [RN (b + 1) (pth_pay (off + 2 + k)) []; RN (b + 2) (sb_pay (off + 2 + k + 4)) (lay1 (b + 3) (off + 2 + k + 4) body)]].
+Lemma lay1_blk b off bk k seg fa body : lay1_item b off (IBlk bk k seg fa body) =
+  [RN b (blk_pay bk off name_zero)
+      (leaf_row (b + 1) (hd_pays bk off k fa) ++
+       [RN (b + 2 + nfx bk fa) (sb_pay (sb_off bk off k fa)) (lay1 (b + 3 + nfx bk fa) (sb_off bk off k fa) body)])].
 Proof. reflexivity. Qed.
 
 (** after connectNamedObjArgs: names set, the constant below the Name object *)
 Fixpoint lay2_item (b off : N) (it : item) : list rose :=
   match it with
   | IName d => [RN b (nam_pay off (seg_nm (d_seg d))) [RN (b + 1) (pth_pay (off + 1)) []; RN (b + 2) (cst_pay (off + 5) d) []]]
-  | IDev k seg body =>
-      [RN b (dev_pay off (seg_nm seg))
-          [RN (b + 1) (pth_pay (off + 2 + k)) [];
-           RN (b + 2) (sb_pay (off + 2 + k + 4))
+  | IBlk bk k seg fa body =>
+      [RN b (blk_pay bk off (seg_nm seg))
+          (leaf_row (b + 1) (hd_pays bk off k fa) ++
+           [RN (b + 2 + nfx bk fa) (sb_pay (sb_off bk off k fa))
               ((fix go (b off : N) (l : list item) {struct l} : list rose :=
                   match l with [] => [] | x :: t => lay2_item b off x ++ go (b + N.of_nat (isz x)) (off + lenN (enc_item x)) t end)
-                 (b + 3) (off + 2 + k + 4) body)]]
-  | IMeth k seg fl body =>
-      [RN b (mth_pay off (seg_nm seg))
-          [RN (b + 1) (pth_pay (off + 1 + k)) [];
-           RN (b + 2) (byt_pay (off + 1 + k + 4) fl) [];
-           RN (b + 3) (sb_pay (off + 1 + k + 5))
-              ((fix go (b off : N) (l : list item) {struct l} : list rose :=
-                  match l with [] => [] | x :: t => lay2_item b off x ++ go (b + N.of_nat (isz x)) (off + lenN (enc_item x)) t end)
-                 (b + 4) (off + 1 + k + 5) body)]]
+                 (b + 3 + nfx bk fa) (sb_off bk off k fa) body)])]
   end.
 Fixpoint lay2 (b off : N) (l : list item) : list rose :=
   match l with [] => [] | x :: t => lay2_item b off x ++ lay2 (b + N.of_nat (isz x)) (off + lenN (enc_item x)) t end.
 
-Lemma lay1_meth b off k seg fl body : lay1_item b off (IMeth k seg fl body) =
-  [RN b (mth_pay off name_zero) [RN (b + 1) (pth_pay (off + 1 + k)) []; RN (b + 2) (byt_pay (off + 1 + k + 4) fl) [];
-                                  RN (b + 3) (sb_pay (off + 1 + k + 5)) (lay1 (b + 4) (off + 1 + k + 5) body)]].
-Proof. reflexivity. Qed.
-
-Lemma lay2_meth b off k seg fl body : lay2_item b off (IMeth k seg fl body) =
-  [RN b (mth_pay off (seg_nm seg)) [RN (b + 1) (pth_pay (off + 1 + k)) []; RN (b + 2) (byt_pay (off + 1 + k + 4) fl) [];
-                                     RN (b + 3) (sb_pay (off + 1 + k + 5)) (lay2 (b + 4) (off + 1 + k + 5) body)]].
-Proof. reflexivity. Qed.
-
-Lemma lay2_dev b off k seg body : lay2_item b off (IDev k seg body) =
-  [RN b (dev_pay off (seg_nm seg)) [RN (b + 1) (pth_pay (off + 2 + k)) []; RN (b + 2) (sb_pay (off + 2 + k + 4)) (lay2 (b + 3) (off + 2 + k + 4) body)]].
+Lemma lay2_blk b off bk k seg fa body : lay2_item b off (IBlk bk k seg fa body) =
+  [RN b (blk_pay bk off (seg_nm seg))
+      (leaf_row (b + 1) (hd_pays bk off k fa) ++
+       [RN (b + 2 + nfx bk fa) (sb_pay (sb_off bk off k fa)) (lay2 (b + 3 + nfx bk fa) (sb_off bk off k fa) body)])].
 Proof. reflexivity. Qed.
 End Lay.
 
-Lemma isz_dev k seg body : isz (IDev k seg body) = (3 + iszs body)%nat.
-Proof. reflexivity. Qed.
-Lemma icnt_dev k seg body : icnt (IDev k seg body) = (2 + icnts body)%nat.
-Proof. reflexivity. Qed.
-Lemma enc_dev k seg body : enc_item (IDev k seg body) =
-  enc_op OP_DEVICE ++ enc_pkglen k (k + lenN (seg_bytes seg ++ enc_items body)) ++ seg_bytes seg ++ enc_items body.
-Proof. reflexivity. Qed.
+(** ---- rows of childless nodes ---- *)
+Lemma leaf_row_rsizes b ps : rsizes (leaf_row b ps) = length ps.
+Proof. revert b. induction ps as [|p r IH]; intros b; [reflexivity|]. cbn [leaf_row rsizes fold_right length]. fold (rsizes (leaf_row (b + 1) r)). rewrite IH, rsize_eq. reflexivity. Qed.
 
-Lemma isz_meth k seg fl body : isz (IMeth k seg fl body) = (4 + iszs body)%nat.
+Lemma leaf_row_idx b ps : map ridx (leaf_row b ps) = seqN b (length ps).
+Proof. revert b. induction ps as [|p r IH]; intros b; [reflexivity|]. cbn [leaf_row map ridx length seqN]. rewrite IH. reflexivity. Qed.
+
+Lemma leaf_row_nodes b ps x : In x (rnodesl (leaf_row b ps)) <-> b <= x < b + N.of_nat (length ps).
+Proof.
+  revert b. induction ps as [|p r IH]; intros b; [cbn; lia|].
+  cbn [leaf_row length]. unfold rnodesl. cbn [flat_map]. rewrite rnodes_eq. cbn [rnodesl flat_map app In].
+  fold (rnodesl (leaf_row (b + 1) r)). rewrite IH. lia.
+Qed.
+
+Lemma leaf_row_desc g pl b ps :
+  (forall i p, nth_error ps i = Some p -> pget pl (b + N.of_nat i) = Some p /\ kids g (b + N.of_nat i) = []) ->
+  Forall (Desc g pl) (leaf_row b ps).
+Proof.
+  revert b. induction ps as [|p r IH]; intros b Hall; [constructor|]. cbn [leaf_row]. constructor.
+  - destruct (Hall 0%nat p eq_refl) as (A & B). rewrite N.add_0_r in A, B. constructor; [exact A|exact B|constructor].
+  - apply IH. intros i q Hi. replace (b + 1 + N.of_nat i) with (b + N.of_nat (S i)) by lia. apply Hall. exact Hi.
+Qed.
+
+Lemma leaf_row_desc_inv g pl b ps : Forall (Desc g pl) (leaf_row b ps) ->
+  forall i p, nth_error ps i = Some p -> pget pl (b + N.of_nat i) = Some p /\ kids g (b + N.of_nat i) = [].
+Proof.
+  revert b. induction ps as [|q r IH]; intros b HD i p Hi; [destruct i; discriminate|]. cbn [leaf_row] in HD.
+  destruct i as [|i].
+  - inversion Hi; subst q. destruct (Desc_inv _ _ _ _ _ (Forall_inv HD)) as (A & B & _). rewrite N.add_0_r. auto.
+  - replace (b + N.of_nat (S i)) with (b + 1 + N.of_nat i) by lia. apply (IH (b + 1) (Forall_inv_tail HD) i p Hi).
+Qed.
+
+Lemma len_hd_pays h tbl bk off k fa : length (hd_pays h tbl bk off k fa) = S (length (bfx bk fa)).
+Proof. unfold hd_pays. cbn [length]. rewrite len_fx_pays. reflexivity. Qed.
+
+Lemma isz_blk bk k seg fa body : isz (IBlk bk k seg fa body) = (3 + length (bfx bk fa) + iszs body)%nat.
 Proof. reflexivity. Qed.
-Lemma icnt_meth k seg fl body : icnt (IMeth k seg fl body) = (2 + icnts body)%nat.
+Lemma icnt_blk bk k seg fa body : icnt (IBlk bk k seg fa body) = (2 + length (bfx bk fa) + icnts body)%nat.
 Proof. reflexivity. Qed.
-Lemma enc_meth k seg fl body : enc_item (IMeth k seg fl body) =
-  enc_op OP_METHOD ++ enc_pkglen k (k + lenN (seg_bytes seg ++ [fl] ++ enc_items body)) ++ seg_bytes seg ++ [fl] ++ enc_items body.
+Lemma enc_blk bk k seg fa body : enc_item (IBlk bk k seg fa body) =
+  enc_op (bk_op bk) ++ enc_pkglen k (k + lenN (seg_bytes seg ++ enc_fx (bfx bk fa) ++ enc_items body)) ++ seg_bytes seg ++ enc_fx (bfx bk fa) ++ enc_items body.
 Proof. reflexivity. Qed.
 
 Lemma isz_pos it : (3 <= isz it)%nat.
-Proof. destruct it; [cbn; lia|rewrite isz_dev; lia|rewrite isz_meth; lia]. Qed.
+Proof. destruct it; [cbn; lia|rewrite isz_blk; lia]. Qed.
 
 (** induction on the number of objects *)
 Lemma items_ind (P : list item -> Prop) :
   P [] ->
   (forall d rest, P rest -> P (IName d :: rest)) ->
-  (forall k seg body rest, P body -> P rest -> P (IDev k seg body :: rest)) ->
-  (forall k seg fl body rest, P body -> P rest -> P (IMeth k seg fl body :: rest)) ->
+  (forall bk k seg fa body rest, P body -> P rest -> P (IBlk bk k seg fa body :: rest)) ->
   forall l, P l.
 Proof.
-  intros H0 Hn Hd Hm.
+  intros H0 Hn Hd.
   assert (HS : forall n l, (iszs l <= n)%nat -> P l).
   { induction n as [|n IH]; intros l Hl.
     - destruct l as [|x t]; [exact H0|]. cbn [iszs fold_right] in Hl. pose proof (isz_pos x). lia.
     - destruct l as [|x t]; [exact H0|]. cbn [iszs fold_right] in Hl. fold (iszs t) in Hl. pose proof (isz_pos x).
-      destruct x as [d|k seg body|k seg fl body].
+      destruct x as [d|bk k seg fa body].
       + apply Hn. apply IH. lia.
-      + rewrite isz_dev in Hl. apply Hd; apply IH; lia.
-      + rewrite isz_meth in Hl. apply Hm; apply IH; lia. }
+      + rewrite isz_blk in Hl. apply Hd; apply IH; lia. }
   intros l. apply (HS (iszs l)). lia.
 Qed.
